@@ -148,7 +148,7 @@ def must_consume_set(prog, rep):
                     cnt = strip(tr.operand(t["args"][1]))
                     if cnt[0] == "call" and re.search(r"str::<impl str>::len$", cnt[1] or ""):
                         consuming_blocks.add(b)
-                elif tgt in by_id and _guarded_consume_while(prog, f, body, tr, b, by_id[tgt]):
+                elif tgt in by_id and _guarded_consume_while(prog, f, body, tr, b, by_id[tgt], by_id):
                     consuming_blocks.add(b)
             fail = failure_blocks(body)
             r = body.reach_from([0], avoid=consuming_blocks | fail)
@@ -158,19 +158,37 @@ def must_consume_set(prog, rep):
     return mc, by_id
 
 
-def _guarded_consume_while(prog, f, body, tr, b, target):
-    """call of a fn whose body is `consume_while(|ch| P(ch))`, at a site dominated by the true edge
-    of P(peek()): it consumes at least the peeked character"""
-    from ..lib.cfgq import dominating_guards
-    tb = target.body
-    preds = set()
-    for _b, t in tb.calls():
+def _consume_while_preds(prog, fn, by_id, depth=2):
+    """predicates P such that every path of fn to a normal return passes consume_while(|ch| P(ch)) — directly or through a
+    parser helper (depth-bounded).  If P(peek()) holds on entry such a function consumes at least one character: whatever
+    runs before either consumes already or leaves the peeked character in place."""
+    body = fn.body
+    sites = {}          # predicate -> blocks
+    for b, t in body.calls():
         fr = callee_fn(t)
         tgt = fr.get("rdef") or fr["def"]
         if tgt.endswith("::consume_while"):
-            for c in prog.closures_of(target):
-                for _b2, t2 in c.body.calls():
-                    preds.add(callee_fn(t2)["def"])
+            for a in t["args"]:
+                if a.get("k") in ("copy", "move") and "p" not in a["p"]:
+                    at = fn.crate.peel(body.locals[a["p"]["l"]]["ty"])
+                    if at is not None and at.k == "closure" and at.path in prog.fns:
+                        for _b2, t2 in prog.fns[at.path].body.calls():
+                            sites.setdefault(callee_fn(t2)["def"], set()).add(b)
+        elif depth > 0 and tgt in by_id and tgt != fn.id:
+            for pname in _consume_while_preds(prog, by_id[tgt], by_id, depth - 1):
+                sites.setdefault(pname, set()).add(b)
+    fail = failure_blocks(body)
+    rets = set(body.return_blocks())
+    return {pname for pname, blocks in sites.items() if not (body.reach_from([0], avoid=blocks | fail) & rets)}
+
+
+def _guarded_consume_while(prog, f, body, tr, b, target, by_id=None):
+    """call of a fn that passes `consume_while(|ch| P(ch))` on every path, at a site dominated by the true edge
+    of P(peek()): it consumes at least the peeked character"""
+    from ..lib.cfgq import dominating_guards
+    if by_id is None:
+        by_id = {g.id: g for g in prog.fns.values() if g.self_path == "tsg::parser::Parser" and g.body is not None}
+    preds = _consume_while_preds(prog, target, by_id)
     if not preds:
         return False
     for g in dominating_guards(body, tr, b):
